@@ -105,6 +105,8 @@ pub fn battery(t: &Tree, order: &[usize]) -> Vec<(String, String)> {
                 format!("ambiguous-label[{}]{}", v.join(" | "), if ok { "" } else { " ANSWER-IS-NOT-A-CARRIER" })
             }
         }).collect::<Vec<_>>().join(" ; "))),
+        // lookups that must find nothing: the empty name, an absent name (removed or unnamed slots must not answer)
+        ("by_name_absent", Box::new(|| ["", " ", "<no such name>"].iter().map(|n| t.get_by_name(n).map(|x| format!("found {}", canon_of(x.id))).unwrap_or("-".into())).collect::<Vec<_>>().join(" ; "))),
         ("search_all", Box::new(|| { let mut v: Vec<String> = t.search_nodes(|_| true).iter().map(|i| canon_of(*i)).collect(); v.sort(); format!("{} {}", v.len(), v.join(" ; ")) })),
         ("search_unnamed", Box::new(|| { let mut v: Vec<String> = t.search_nodes(|n| n.name.is_none()).iter().map(|i| canon_of(*i)).collect(); v.sort(); v.join(" ; ") })),
         ("newick", Box::new(|| r2s(t.to_newick()))),
@@ -211,7 +213,7 @@ fn history(start: &str, nops: usize, rng: &mut Rng, rep: &mut Report, batch: &mu
             rep.oracle("fresh-parse", "reparse-failed", &case.script(), &text);
             continue;
         };
-        let k = 31;
+        let k = 32;
         let o1: Vec<usize> = (0..k).map(|_| rng.below(k)).collect();
         let o2: Vec<usize> = (0..k).map(|_| rng.below(k)).collect();
         let b_edit = battery(&st.tree, &o1);
